@@ -202,6 +202,9 @@ func (w *c44World) oracle(pending [][]transactions.SignedTxn, cand []transaction
 	}
 	for i, g := range pending {
 		if err := feed(g); err != nil {
+			if vEnvInt("VERIF_C44_DEBUG", 0) == 1 {
+				println("DEBUG oracle replay", i, "latest", uint64(w.l.Latest()), err.Error())
+			}
 			return i, 2
 		}
 	}
@@ -255,7 +258,7 @@ func (w *c44World) obs(res string) []interface{} {
 	return vL(vSym(res), ids, nsp, over, npwb, ftm, w.pool.FeePerByte(), sync, replay)
 }
 
-func (w *c44World) remember(g []*c44Tx) {
+func (w *c44World) remember(g []*c44Tx) string {
 	stx := c44Stxns(g)
 	would := 2
 	if w.inSync() {
@@ -268,6 +271,7 @@ func (w *c44World) remember(g []*c44Tx) {
 	}
 	w.stat["rem_"+res]++
 	w.ops = append(w.ops, vL(vSym("rem"), w.groupTerm(g), would, w.obs(res)))
+	return res
 }
 
 // ---- building transactions ----
@@ -445,8 +449,12 @@ func (w *c44World) randomPay(snd int) transactions.Transaction {
 func (w *c44World) goodPay() (transactions.Transaction, int) {
 	cur := uint64(w.l.Latest()) + 1
 	snd := w.r.Intn(2)
+	lease := 0
+	if w.r.Intn(8) == 0 {
+		lease = 1 + w.r.Intn(2)
+	}
 	return w.pay(snd, w.addrs[w.r.Intn(len(w.addrs))], uint64(1+w.r.Intn(100)), w.proto.MinTxnFee+uint64(w.r.Intn(3))*w.proto.MinTxnFee,
-		cur, cur+2+uint64(w.r.Intn(30)), 0, basics.Address{}), snd
+		cur, cur+2+uint64(w.r.Intn(30)), lease, basics.Address{}), snd
 }
 
 func (w *c44World) goodSingle(mode int) []*c44Tx {
@@ -469,6 +477,9 @@ func (w *c44World) newGroup() []*c44Tx {
 		return []*c44Tx{x}
 	case k < 92: // groups of 2..4
 		n := 2 + r.Intn(3)
+		if w.proto.MaxTxnBytesPerBlock < 100000 && r.Intn(4) == 0 {
+			n = 4 + r.Intn(4) // may not fit into one (small) block at all
+		}
 		txs := make([]transactions.Transaction, n)
 		snds := make([]int, n)
 		pooled := r.Intn(3) == 0
@@ -619,6 +630,13 @@ func (w *c44World) onNewBlock(vb ledgercore.ValidatedBlock, mode int) {
 		}
 	}
 	w.pool.OnNewBlock(vb.Block(), delta)
+	if vEnvInt("VERIF_C44_DEBUG", 0) == 1 {
+		for _, x := range w.sp {
+			if _, txErr, _ := w.pool.Lookup(x.stxn.ID()); txErr != "" {
+				println("DEBUG sp", x.id, "round", uint64(vb.Block().Round()), txErr)
+			}
+		}
+	}
 	w.stat["onb"]++
 	w.ops = append(w.ops, vL(vSym("onb"), uint64(vb.Block().Round()), ids, w.obs("none")))
 }
@@ -675,6 +693,21 @@ func (w *c44World) newGroupSP() []*c44Tx {
 
 func (w *c44World) history(nOps int, noSPBlocks bool) {
 	w.ops = append(w.ops, vL(vSym("ini"), w.obs("none")))
+	if len(w.sp) > 0 && w.r.Intn(4) > 0 {
+		// scripted prefix: fill the pool, then the state proofs arrive
+		if w.r.Intn(3) == 0 {
+			w.remember([]*c44Tx{w.sp[1]}) // out of order: rejected by the evaluator
+		}
+		for i := 0; i < 8 && w.remember(w.goodSingle(0)) != "cap"; i++ {
+		}
+		w.remember([]*c44Tx{w.sp[0]})
+		if w.accum {
+			vb := w.externalBlock(nil)
+			w.commit(vb)
+			w.onNewBlock(vb, w.r.Intn(2))
+			w.remember([]*c44Tx{w.sp[1]})
+		}
+	}
 	for i := 0; i < nOps; i++ {
 		if w.r.Intn(100) < 70 {
 			w.remember(w.newGroupChecked())
@@ -700,6 +733,43 @@ func (w *c44World) ledgerTerm() []interface{} {
 		bals = append(bals, vL(w.num(a), w.balance(a)))
 	}
 	return vL(vSym("L"), uint64(w.l.Latest()), w.spNext(), bals)
+}
+
+// like mockLedger, but the trackers never flush during a history (MaxAcctLookback is larger than
+// any chain built here): the in-memory SQLite of the test ledgers uses a shared cache, where a
+// tracker flush in the background makes concurrent account lookups of the evaluator fail with
+// "database table is locked" -- flush timing would leak into the evaluator's answers (observed:
+// a valid pending state proof dropped by recomputeBlockEvaluator).  VERIF_C44_DISK=1 uses an
+// on-disk (WAL) ledger with the default lookback instead.
+func c44Ledger(t *testing.T, r *vRand, initAccounts map[basics.Address]basics.AccountData, pv protocol.ConsensusVersion) *ledger.Ledger {
+	var hash crypto.Digest
+	copy(hash[:], r.Bytes(32))
+	var sink basics.Address
+	copy(sink[:], r.Bytes(32))
+	var sinkData basics.AccountData
+	sinkData.MicroAlgos.Raw = 1 << 32
+	initAccounts[sink] = sinkData
+	initBlock := bookkeeping.Block{
+		BlockHeader: bookkeeping.BlockHeader{
+			GenesisID:    "pooltest",
+			GenesisHash:  hash,
+			UpgradeState: bookkeeping.UpgradeState{CurrentProtocol: pv},
+			RewardsState: bookkeeping.RewardsState{FeeSink: sink, RewardsPool: sink},
+		},
+	}
+	var err error
+	initBlock.TxnCommitments, err = initBlock.PaysetCommit()
+	require.NoError(t, err)
+	cfg := config.GetDefaultLocal()
+	cfg.Archival = true
+	disk := vEnvInt("VERIF_C44_DISK", 0) == 1
+	if !disk {
+		cfg.MaxAcctLookback = uint64(vEnvInt("VERIF_C44_LOOKBACK", 2048))
+	}
+	l, err := ledger.OpenLedger(logging.Base(), t.TempDir()+"/ledger", !disk,
+		ledgercore.InitState{Block: initBlock, Accounts: initAccounts, GenesisHash: hash}, cfg)
+	require.NoError(t, err)
+	return l
 }
 
 func c44Keys(r *vRand, n int) ([]*crypto.SignatureSecrets, []basics.Address) {
@@ -789,7 +859,7 @@ func TestVerifC44(t *testing.T) {
 			pv = c44SmallProto
 		}
 		secrets, addrs := c44Keys(r, 6)
-		l := mockLedger(t, c44Balances(r, addrs, config.Consensus[pv]), pv)
+		l := c44Ledger(t, r, c44Balances(r, addrs, config.Consensus[pv]), pv)
 		w := c44NewWorld(t, r, l, pv, secrets, addrs, &stale, stat)
 		w.startPool(out, nOps/2+r.Intn(nOps), false)
 		l.Close()
@@ -826,7 +896,7 @@ func c44StateProofWorld(t *testing.T, r *vRand, out *vOut, stale *int, stat map[
 		}
 		init[a] = d
 	}
-	l := mockLedger(t, init, protocol.ConsensusCurrentVersion)
+	l := c44Ledger(t, r, init, protocol.ConsensusCurrentVersion)
 	defer l.Close()
 	w0 := c44NewWorld(t, r, l, protocol.ConsensusCurrentVersion, secrets, addrs, stale, stat)
 	for l.Latest() < 3*basics.Round(proto.StateProofInterval)+2 {
@@ -861,7 +931,9 @@ func c44StateProofWorld(t *testing.T, r *vRand, out *vOut, stale *int, stat map[
 	sp1 := mkSP(2 * basics.Round(proto.StateProofInterval))
 	sp2 := mkSP(3 * basics.Round(proto.StateProofInterval))
 	for h := 0; h < histories; h++ {
-		w := c44NewWorld(t, r, l, protocol.ConsensusCurrentVersion, secrets, addrs, stale, stat)
+		// only the two plain (offline, key-less) accounts send: the model's accounts carry
+		// nothing but MicroAlgos, an online account is never "empty" at balance 0
+		w := c44NewWorld(t, r, l, protocol.ConsensusCurrentVersion, secrets[:2], addrs, stale, stat)
 		w.leaseOff = 10 * (h + 1)
 		w.noteCtr = uint64(h+1) << 32
 		w.accum = accum
